@@ -20,6 +20,7 @@ META = {
     "not_decided": "model agreement over operation histories (values read back, order, sizes)",
     "assumptions": ["public methods re-establish the class invariant (payload kind == discriminant) for other receivers"],
 }
+META["explanation"] += " " + '(SB-overload) the const& and && overloads of one Value operation that do not forward to each other apply the same kind tests to this value, the source and its elements. (RV-use) an rvalue-reference parameter is only moved from, inspected through members or emptied explicitly, never named as a plain value (which copies it).'
 
 SUPPRESS = [
     ("Qentem::Value::Storage()", "this.array_",
@@ -194,5 +195,5 @@ def run(ctx):
                 hit += 1
         t1.suppressions.append({"rule": "TS-value", "function": fn_sig, "construct": construct, "reason": reason, "matched": hit})
     t1.notes.append("%d member functions of Value analysed; kinds %s" % (n, sorted(spec.kinds)))
-    from rules.common import rule_overload_pairs
-    return [t1, tx, rule_zero(ctx), rule_overload_pairs(ctx, m)]
+    from rules.common import rule_overload_pairs, rule_rvalue_use
+    return [t1, tx, rule_zero(ctx), rule_overload_pairs(ctx, m), rule_rvalue_use(ctx, m)]
